@@ -35,6 +35,8 @@ pub enum Exit {
 pub struct Case {
     pub exit: Exit,
     pub sup_busy: bool,
+    /// the supervisor is Draining (a backlog of slow messages queued, then drain()) when the child exits: still a living supervisor
+    pub sup_draining: bool,
     pub defer: u64,
     pub monitor: bool,
 }
@@ -64,9 +66,28 @@ pub fn all_cases() -> Vec<Case> {
         for sup_busy in [false, true] {
             for defer in [0u64, 30] {
                 for monitor in [false, true] {
-                    cases.push(Case { exit, sup_busy, defer, monitor });
+                    cases.push(Case { exit, sup_busy, sup_draining: false, defer, monitor });
                 }
             }
+        }
+    }
+    // a supervisor that is working through a backlog after drain() is alive: it must hear about the child all the same
+    let mut dr = vec![];
+    for f in FAILS {
+        dr.push(Exit::FailIn(Cb::Handle, f));
+        dr.push(Exit::FailIn(Cb::PostStop, f));
+    }
+    for timing in [0u8, 1, 3] {
+        dr.push(Exit::Stop { reason: true, timing });
+        dr.push(Exit::Drain { timing });
+        dr.push(Exit::Kill { timing });
+    }
+    for k in [2u64, 5, 9] {
+        dr.push(Exit::AbortAt(k));
+    }
+    for exit in dr {
+        for defer in [0u64, 30] {
+            cases.push(Case { exit, sup_busy: false, sup_draining: true, defer, monitor: false });
         }
     }
     cases
@@ -163,7 +184,8 @@ pub fn run_case(idx: u64, case: &Case, tl: Option<(&tokio::runtime::Runtime, rac
             Exit::FailIn(Cb::PostStop, f) => child.post_stop.push(fail_step(f)),
             _ => {}
         }
-        if timing == 1 {
+        let park_first = timing == 1 || (case.sup_draining && matches!(case.exit, Exit::FailIn(Cb::Handle, _)));
+        if park_first {
             first_msg_script.insert(0, Step::Park(gate.clone()));
         }
         if timing == 2 {
@@ -210,8 +232,15 @@ pub fn run_case(idx: u64, case: &Case, tl: Option<(&tokio::runtime::Runtime, rac
             let _ = child_ref.send_message(PMsg::Work(Work::new(&trace, 1, 1, first_msg_script)));
             let _ = child_ref.send_message(PMsg::Work(Work::new(&trace, 1, 2, vec![Step::Yield])));
             match timing {
-                0 => settle().await,
+                0 if !park_first => settle().await,
                 _ => gate.wait_reached().await,
+            }
+            if case.sup_draining {
+                for k in 0..8u64 {
+                    let _ = sup_ref.send_message(PMsg::Work(Work::new(&trace, 9, 1 + k, vec![Step::Sleep(5)])));
+                }
+                let _ = sup_ref.drain();
+                settle().await;
             }
             trace.log(Ev::Call { client: 1, op: "exit", arg: CHILD });
             match case.exit {
@@ -238,6 +267,10 @@ pub fn run_case(idx: u64, case: &Case, tl: Option<(&tokio::runtime::Runtime, rac
                 Err(_) => Err("other".into()),
             });
             ran.abort_fired = c.abort_fired();
+        }
+        if case.sup_draining {
+            // the draining supervisor stops by itself once its backlog is done (no deadline: the scenario's own bound applies)
+            let _ = sup_ref.wait(None).await;
         }
         quiesce().await;
         // bystander and supervisor must still answer
@@ -311,7 +344,12 @@ pub fn run_case(idx: u64, case: &Case, tl: Option<(&tokio::runtime::Runtime, rac
     );
     let mut bad = |c: &str, d: String| v.push((c.to_string(), format!("{d} [{summary}]")));
 
-    if !ran.sup_alive || !ran.sup_flush_ok {
+    if case.sup_draining {
+        let handled = recs.iter().filter(|r| matches!(&r.ev, Ev::Handled { uid, sender: 9, .. } if *uid == SUP)).count();
+        if handled != 8 {
+            bad("containment", format!("the draining supervisor handled {handled} of its 8 queued messages"));
+        }
+    } else if !ran.sup_alive || !ran.sup_flush_ok {
         bad("containment", "the supervisor (Ignore policy) did not survive / answer after the child's exit".into());
     }
     if !ran.by_flush_ok {
@@ -425,7 +463,7 @@ pub fn run_case(idx: u64, case: &Case, tl: Option<(&tokio::runtime::Runtime, rac
         v.push(("foreign-panic".into(), format!("{loc}: {msg}")));
     }
     // distinct = (exit kind, callbacks exit-kinds reached, abort fired, sup busy)
-    let mut words = vec![case.sup_busy as u64, case.monitor as u64, ran.abort_fired as u64, case.defer];
+    let mut words = vec![case.sup_busy as u64 + 2 * case.sup_draining as u64, case.monitor as u64, ran.abort_fired as u64, case.defer];
     words.push(crate::prng::hash_str(&format!("{:?}", case.exit)));
     words.extend(child_exit_hows.iter().map(|(c, h)| (*c as u64) * 10 + *h as u64));
     let nontrivial = !matches!(case.exit, Exit::AbortAt(_)) || ran.abort_fired;
